@@ -76,6 +76,25 @@ func Hook(s uint32) {
 	}
 }
 
+// Work is installed as verifsim.WorkHook (C04): n bytes handed to bulk primitives by the
+// statement about to run cost n/32 units of simulated time on top of the statement's own unit.
+// The budget is enforced by the next Hook call.
+//
+//go:norace
+func Work(n int) {
+	if n <= 0 {
+		return
+	}
+	if f := IsForeign; f != nil && f() {
+		return
+	}
+	WorkBytes += int64(n)
+	Steps += int64(n >> 5)
+}
+
+// WorkBytes is the running total of bytes charged through Work.
+var WorkBytes int64
+
 // SampleAt, when SampleAt[0] > 0, turns the budget into a ladder: the stack is
 // sampled when Steps passes Limit, then Limit moves to SampleAt[0], SampleAt[1],
 // …, and the panic is raised at the last rung.
